@@ -251,6 +251,12 @@ func wrap(w http.ResponseWriter, r *http.Request, tx types.Transaction) (
 			return nil
 		}
 
+		// A handler that returned without writing anything still answers (net/http sends 200 for
+		// it): the response headers phase has to see that response like any other.
+		if !i.wroteHeader {
+			i.WriteHeader(http.StatusOK)
+		}
+
 		// We look for interruptions triggered at phase 3 (response headers)
 		// and during writing the response body. If so, response status code
 		// has been sent over the flush already.
